@@ -64,6 +64,9 @@ ASSUMPTIONS = [
     "a query never returns a stale entry; stale entries under names nobody queries stay stored",
     "the reply compared is what the registry hands to its transport; a reply larger than the transport's datagram "
     "(or than the MAX_DGRAM_SIZE bytes rpyc's own clients read) is outside the model",
+    "case-insensitive means Python's str.upper(): exact for ASCII names; for other text it identifies what upper() identifies "
+    "('straße' and 'STRASSE' meet; 'STRAẞE' does not meet 'straße'; 'İstanbul' does not meet its own lower()) - the "
+    "registry's behaviour, compared as such (upper/lower of non-ASCII text come from the running interpreter)",
     "callbacks on_service_added / on_service_removed may raise; the registry logs and carries on (exercised)",
     "logging calls cannot raise: `_work` calls self.logger.warn(...) outside every try (wrong magic, unknown command) and "
     "logger.exception / debug elsewhere; true of a real logging.Logger on this interpreter (obligation "
@@ -558,6 +561,85 @@ def real_socket_cases(ctx, r):
     return out
 
 
+def client_server_histories(ctx, c, r):
+    """rpyc's own client classes against rpyc's own servers over real loopback sockets: what `register` / `discover` /
+    `unregister` return is compared with the model's replies to the same requests, the final table with the model's"""
+    R, b = reg(), brine()
+    for mode, Srv, Cli in (("udp", "real-udp", "UDPRegistryClient"), ("tcp", "real-tcp", "TCPRegistryClient"), ("udp", "real-udp", "UDPRegistryClient")):
+        calls = [("register", ("calc", "Db"), 18812), ("discover", "CALC"), ("register", ("calc",), 7), ("discover", "calc")]
+        for _ in range(r.range(3, 7)):
+            k = r.below(3)
+            calls.append([("register", tuple(case_variant(r, r.choice(["calc", "db", "x"])) for _ in range(r.range(1, 2))), r.choice([7, 18812, 9])),
+                          ("discover", case_variant(r, r.choice(["calc", "db", "x", "nope"]))), ("unregister", r.choice([7, 18812, 9]))][k])
+        calls += [("unregister", 7), ("discover", "calc"), ("discover", "db")]
+        class FloatClock:                      # the clients do arithmetic with time.time() and hand it to settimeout
+            @staticmethod
+            def time():
+                return 5000.0
+        saved = R.time
+        R.time = FloatClock
+        got = []
+        try:
+            try:
+                srv = real_classes()[Srv](host="127.0.0.1", port=0, pruning_timeout=Fraction(10 ** 6, 1000), logger=real_logger())
+            except OSError as ex:
+                c.count("skipped:real-sockets-unavailable(%s)" % type(ex).__name__)
+                continue
+            srv.notes = []
+            th = threading.Thread(target=srv.start, daemon=True)
+            with warnings.catch_warnings():
+                warnings.simplefilter("ignore", DeprecationWarning)
+                th.start()
+                while not srv.active:
+                    _walltime.sleep(0.005)
+                kw = dict(bcast=False) if mode == "udp" else {}
+                cli = getattr(R, Cli)(ip="127.0.0.1", port=srv.port, timeout=3, logger=NullLogger(), **kw)
+                for call in calls:
+                    if call[0] == "register":
+                        got.append(cli.register(call[1], call[2], interface="127.0.0.1"))
+                    elif call[0] == "discover":
+                        got.append(cli.discover(call[1]))
+                    else:
+                        cli.unregister(call[1])
+                        got.append(cli.discover("__sync__") if mode == "udp" else None)     # UDP unregister does not wait
+                table = snapshot(srv.services)
+                try:
+                    srv.close()
+                except ValueError:
+                    pass
+                if mode == "tcp":
+                    try:
+                        socket.create_connection(("127.0.0.1", srv.port), timeout=1).close()
+                    except OSError:
+                        pass
+                th.join(5)
+        finally:
+            R.time = saved
+        # the same requests through the model
+        events, k = [("t", 5000000)], 0
+        for call in calls:
+            data = (cmd_register(call[1], call[2]) if call[0] == "register" else cmd_query(call[1]) if call[0] == "discover"
+                    else cmd_unregister(call[1]))
+            events.append(("d", "127.0.0.1", data) if mode == "udp" else ("c", k, "127.0.0.1", data))
+            k += 1
+        mv = valtext.from_text(run_driver([op_line(mode, 10 ** 6, 1000, events)], exe="drv_registry")[0])
+        mv = [x[3:] if mode == "tcp" else x for x in mv]
+        want, final = [], ()
+        for call, x in zip(calls, mv):
+            reply = x[1][0] if x[1] else None
+            want.append(reply == "OK" if call[0] == "register" else reply if call[0] == "discover"
+                        else (() if mode == "udp" else None))
+            if x[3] is not None:
+                final = x[3]
+        c.evaluations += len(calls)
+        c.count("real-clients-vs-real-server:%s-calls" % mode, len(calls))
+        c.signatures.add("real-clients:%s" % mode)
+        if valtext.canon(tuple(got)) != valtext.canon(tuple(want)) or valtext.canon(table) != valtext.canon(final):
+            c.disagreements.append(dict(case=dict(kind="real-clients", mode=mode, calls=[list(map(str, x)) for x in calls]),
+                                        impl=(repr(got) + " | " + repr(table))[-700:], model=(repr(want) + " | " + repr(final))[-700:],
+                                        source="real-clients"))
+
+
 def real_socket_correspondence(ctx, c, r):
     """a handful of histories on the real servers over real loopback sockets against the model"""
     R = reg()
@@ -1004,7 +1086,11 @@ def correspondence(ctx):
               "interval, non-text hosts (base class), a quarter with a real logging.Logger, on the scripted base class, the "
               "real UDP server and the real TCP server; every c04 value shape as the host; a handful of histories on the "
               "real servers over real loopback sockets (own __init__/start(), one silent TCP client at the real TIMEOUT); "
-              "every unanswered datagram is also checked to have left no trace; (b) datagram streams over a populated table: all byte strings of length <= 1, a sample "
+              "rpyc's own client classes against its own servers over real sockets; transport hiccups (recv/accept timeouts and "
+              "resets, sends that fail); a family of values nested around the depth at which the registry's brine.load / "
+              "brine.dump hit the recursion limit (every depth there, both stack parities, 7 leaf types, as port and as name, "
+              "under the default limit 1000); every unanswered datagram is also checked to have left no trace; the statement "
+              "oracle (real code only) runs on ~700 histories of every run; (b) datagram streams over a populated table: all byte strings of length <= 1, a sample "
               "(thorough: all) of length 2, c04's mutations of well-formed commands and of valid encodings, random bytes, "
               "every c04 value shape in place of magic/command/args/name/names/port. Compared after every event: reply, "
               "notifications, whole services table in dict order with times, loop alive (tcp: accepted, elapsed, tracked "
@@ -1114,6 +1200,7 @@ def correspondence(ctx):
     statement_oracle_sample(ctx, c, r)
     try:
         real_socket_correspondence(ctx, c, r)
+        client_server_histories(ctx, c, r)
     except DriverError as ex:
         c.error = str(ex)
         return c
@@ -1126,6 +1213,15 @@ def correspondence(ctx):
     c.extra["tcp_patience"]["silent_clients_tolerated"] = ((c.extra["tcp_patience"]["client_default_timeout_ms"] - 1)
                                                            // c.extra["tcp_patience"]["server_timeout_ms"])
     c.extra["logging_format_errors_with_real_logger"] = _Sink.errors
+    c.extra["theorem_kinds"] = dict(
+        obligations_on_generated_facts=["commands_are_modelled", "client_requests_understood", "reregister_within_pruning",
+                                        "tcp_recv_closes_unreplied", "all_brine_values_hashable", "logger_warn_survives",
+                                        "reply_dump_is_guarded", "datagram_bounded"],
+        structural_facts=["query_order", "registration_order", "stored_iff_view", "received_is_genuine", "tcp_client_is_workStep",
+                          "tcp_silent_step"],
+        counterexamples=["C18_counterexample_unguarded_reply_dump (repaired)",
+                         "C18_counterexample_silent_client_outlasts_default_client (known finding)"],
+        note="every other theorem of Rpyc.Props.C18 carries a clause of the property")
     c.extra["observations"] = [
         "outside the statement (it is about the registry's answer, which is correct here) and assumed away: a reply is one "
         "datagram / one recv(MAX_DGRAM_SIZE) on the client side; with about 76 or more servers under one name (reply > 1500 "
